@@ -284,9 +284,8 @@ type vMarkRec struct {
 var vMarks []*vMarkRec
 
 func vSnapWalk(v interface{}, mk *vMarkRec, seen map[uintptr]bool) {
+	v = vUnwrap(v)
 	switch c := v.(type) {
-	case Map:
-		vSnapWalk(map[string]interface{}(c), mk, seen)
 	case map[string]interface{}:
 		p := reflect.ValueOf(c).Pointer()
 		if seen[p] {
@@ -540,9 +539,8 @@ func vShares(a, b interface{}) bool {
 	seen := map[uintptr]bool{}
 	var walk func(v interface{}, record bool) bool
 	walk = func(v interface{}, record bool) bool {
+		v = vUnwrap(v)
 		switch c := v.(type) {
-		case Map:
-			return walk(map[string]interface{}(c), record)
 		case map[string]interface{}:
 			p := reflect.ValueOf(c).Pointer()
 			if record {
@@ -585,4 +583,39 @@ func vTempFile(tag string) string {
 	name := f.Name()
 	f.Close()
 	return name
+}
+
+// vUnwrap converts named map types of the package under test (mxj.Map, mxj.MapSeq) to
+// map[string]interface{}; set by the package-specific part of the prelude.
+var vUnwrap = func(v interface{}) interface{} { return v }
+
+// vDeepEq: structural equality of decoded values (maps, lists, scalars).
+func vDeepEq(a, b interface{}) bool {
+	a, b = vUnwrap(a), vUnwrap(b)
+	switch av := a.(type) {
+	case map[string]interface{}:
+		bv, ok := b.(map[string]interface{})
+		if !ok || len(av) != len(bv) {
+			return false
+		}
+		for k, x := range av {
+			y, has := bv[k]
+			if !has || !vDeepEq(x, y) {
+				return false
+			}
+		}
+		return true
+	case []interface{}:
+		bv, ok := b.([]interface{})
+		if !ok || len(av) != len(bv) {
+			return false
+		}
+		for i := range av {
+			if !vDeepEq(av[i], bv[i]) {
+				return false
+			}
+		}
+		return true
+	}
+	return vSame(a, b)
 }
